@@ -1,15 +1,23 @@
 import TTV.Model.Reactor
 /-! Model of `AsynchronousDeferredRunTest` (C14) on the shared virtual-time reactor / `Spinner` model.
 
-A test program: `setUp`, the test method, `tearDown` (each registering cleanups at its start) where every
-stage independently performs side effects (leave a delayed call, log an error, drop a failed Deferred, flush
-the logged errors, a failing `expectThat`) and then returns / raises / returns a Deferred that fires or fails
-after a delay / never fires.  Interrupts are `reactor.stop()` requests scheduled before the run.
+A test program: `setUp`, the test method, `tearDown` and cleanups (each stage registering cleanups at its start
+- cleanups may register cleanups, to any depth) where every stage independently performs side effects (leave a
+delayed call, log an error, drop a failed Deferred, flush the logged errors, a failing `expectThat`) and then
+returns / raises / returns a Deferred that fires or fails after a delay / never fires; the exception is an error,
+a failure, a skip or one that no handler claims (`KeyboardInterrupt`, `SystemExit`).  Interrupts are
+`reactor.stop()` requests scheduled before the run.
 
 * `_run_deferred`'s callback chain and `_run_cleanups`: `startSetUp … runCleanups`, resumed by the delayed call
-  that fires the pending stage's Deferred (`CAct.stageDone`);
-* `Spinner.run` around it: timeout call, the loop `spin`, `_clean` (with the two obligatory iterations of
-  `AsynchronousDeferredRunTestForBrokenTwisted`);
+  that fires the pending stage's Deferred (`CAct.stageDone`); `_run_cleanups` pops the stack until it is empty and
+  keeps the *last* cleanup exception only;
+* the reactor runs in iterations (`ReactorBase.runUntilCurrent`): `drainB`, `iterateB`, `spinB` - a call scheduled
+  during an iteration, even with delay 0, waits for the next one;
+* `Spinner.run` around it: timeout call, the loop `spinB`; the result is determined when the loop ends
+  (`afterSpin`), *then* `_clean` runs (with the two obligatory iterations of
+  `AsynchronousDeferredRunTestForBrokenTwisted`, `afterIter`): what completes during those is not the run's result;
+* an exception no handler claims: reported as an error by the handler of last resort, re-raised by `run()` after
+  `stopTest` (`Trace.raised`);
 * `_blocking_run_deferred` / `_run_core`: TimeoutError / NoResultError (+ `result.stop()`), logged errors,
   unhandled errors in Deferreds, junk ⇒ `_exceptions`; one `addSuccess`; `_run_prepared_result` picks the outcome;
 * the log fixtures as operations on the list of observers.
